@@ -227,7 +227,7 @@ def _pipe_job(job):
             truth[(t["key"][1], t["key"][2], t["key"][0])] = t
         strand_pos = {}
         for s in job["strands"]:
-            rs = [x for x in r["bio"].residues if x.chain_id == s["chain"]]
+            rs = [x for x in r["bio"].residues if x.chain_id == s["chain"] and isinstance(x, na.Nucleic)]
             for k, x in enumerate(rs):
                 strand_pos[id(x)] = ("5" if k == 0 else "") + ("3" if k == len(rs) - 1 else "")
         for res in r["bio"].residues:
@@ -236,7 +236,7 @@ def _pipe_job(job):
             want = want_key(t) if t else ""
             if isinstance(res, na.Nucleic) and id(res) in strand_pos:
                 base = res.name[-1] if res.name[-1] in "ACGTU" else ""
-                kind = "R" if res.has_atom("O2'") else "D"
+                kind = "R" if (job.get("rna") or res.has_atom("O2'")) else "D"   # ground truth of the generator where it says so
                 want = kind + base + strand_pos[id(res)] if base else ""
             for a in res.atoms:
                 q, rad = text.get(id(a), ("", ""))
